@@ -115,6 +115,9 @@ pub struct Core {
     frozen_until: [u64; MAX_TASKS],
     prio: [u64; MAX_TASKS],
     prio_set: [bool; MAX_TASKS],
+    /// next "lowest" priority for a demoted task (strictly decreasing, so demoted tasks queue up
+    /// behind each other instead of starving each other)
+    low_prio: u64,
     change_points: Vec<u64>,
     next_stall: usize,
     // livelock detector
@@ -160,6 +163,7 @@ impl Core {
             frozen_until: [0; MAX_TASKS],
             prio: [0; MAX_TASKS],
             prio_set: [false; MAX_TASKS],
+            low_prio: 1 << 61,
             change_points,
             next_stall: 0,
             ever_seen: std::collections::HashSet::with_capacity(1024),
@@ -378,14 +382,17 @@ impl Core {
                     // the thread they wait for
                     if let Some(c) = current {
                         if c < MAX_TASKS && (is_yielding || r.idle_ops[c].get() >= 64) {
-                            self.prio[c] = self.rng.below(1 << 20);
+                            // to the back of the line: lower than everything handed out so far
+                            self.low_prio -= 1;
+                            self.prio[c] = self.low_prio;
                             r.idle_ops[c].set(0);
                         }
                     }
                     while !self.change_points.is_empty() && self.change_points[0] <= self.step {
                         self.change_points.remove(0);
                         if let Some(&top) = cands.iter().max_by_key(|&&t| self.prio[t]) {
-                            self.prio[top] = self.rng.below(1 << 20);
+                            self.low_prio -= 1;
+                            self.prio[top] = self.low_prio;
                         }
                     }
                     *cands.iter().max_by_key(|&&t| self.prio[t]).unwrap()
